@@ -326,4 +326,95 @@ def PPortText (s : Bytes) (out : Option Nat) : Bool :=
 /-- the same with the KNOWN base-0 point excused: the candidate may also be exactly what base-0 parsing yields -/
 def PPortTextExc (s : Bytes) (out : Option Nat) : Bool := PPortText s out || out == portText s
 
+/-! ### every numeric setting of a chain config, and describing it (`String()`) -/
+
+/-- one numeric setting: default, whether the field is unsigned, validated minimum, unit of the loaded value -/
+structure FSpec where
+  dflt : Int
+  unsigned : Bool
+  minv : Option Int
+  scale : Int
+deriving Repr
+
+/-- maxGasPrice, gasIncreasePercentage, gasLimit, transferGas, startBlock, blockConfirmations, blockInterval, blockRetryInterval (→ ns) -/
+def evmSpecs : List FSpec :=
+  [⟨500000000000, false, none, 1⟩, ⟨15, false, none, 1⟩, ⟨15000000, false, none, 1⟩, ⟨250000, true, none, 1⟩,
+   ⟨0, false, none, 1⟩, ⟨10, false, some 1, 1⟩, ⟨5, false, some 1, 1⟩, ⟨5, true, none, 1000000000⟩]
+
+/-- chainID, startBlock, blockInterval, blockRetryInterval (→ ns), tip -/
+def subSpecs : List FSpec :=
+  [⟨0, false, none, 1⟩, ⟨0, false, none, 1⟩, ⟨5, false, some 1, 1⟩, ⟨5, true, none, 1000000000⟩, ⟨0, true, none, 1⟩]
+
+def loadField (sp : FSpec) (w : Option Int) : Option Int :=
+  let v := w.getD sp.dflt
+  if sp.unsigned && decide (v < 0) then none
+  else match sp.minv with
+    | some m => if v < m then none else some (v * sp.scale)
+    | none => some (v * sp.scale)
+
+/-- the loaded numeric fields of a chain config (`none` = the constructor fails) -/
+def loadFields : List FSpec → List (Option Int) → Option (List Int)
+  | [], [] => some []
+  | sp :: sps, w :: ws =>
+    match loadField sp w, loadFields sps ws with
+    | some v, some vs => some (v :: vs)
+    | _, _ => none
+  | _, _ => none
+
+/-- describing a configuration (`String()`), and computing the start block from it, change nothing: the fields read
+    afterwards are the fields loaded -/
+def describe (fields : List Int) : List Int := fields
+
+/-- what the property asks of the field list read at any later moment -/
+def fieldsWanted : List FSpec → List (Option Int) → List Int
+  | sp :: sps, w :: ws => (w.getD sp.dflt) * sp.scale :: fieldsWanted sps ws
+  | _, _ => []
+
+/-- **P20 (fields stay what was written)** on any candidate observation: the field lists read right after loading,
+    after describing once, after describing twice and after the start-block computation are all the written values -/
+def PDescribe (specs : List FSpec) (ws : List (Option Int)) (out : Option (List (List Int))) : Bool :=
+  match out with
+  | none => true
+  | some snaps => !snaps.isEmpty && snaps.all fun fs => fs == fieldsWanted specs ws
+
+/-! ### general chain settings that command-line flags may override -/
+
+structure GenIn where
+  fresh : Option Bool        -- per-chain "fresh"
+  latest : Option Bool       -- per-chain "latest"
+  bs : Option Bytes          -- per-chain "blockstorePath"
+  flagFresh : Bool           -- --fresh given
+  flagLatest : Bool          -- --latest given
+  flagBs : Bytes             -- what viper returns for the blockstore flag ("" = nothing)
+deriving Repr
+
+structure GenOut where
+  fresh : Bool
+  latest : Bool
+  bs : Bytes
+deriving Repr, DecidableEq
+
+/-- `GeneralChainConfig.ParseFlags` after decoding: a flag overrides only when it is set / non-empty -/
+def loadGeneral (g : GenIn) : GenOut :=
+  ⟨if g.flagFresh then true else g.fresh.getD false,
+   if g.flagLatest then true else g.latest.getD false,
+   if g.flagBs ≠ [] then g.flagBs else g.bs.getD []⟩
+
+/-- **P20 (general settings)**: each setting is what the chain entry says unless the corresponding flag was given -/
+def PGeneral (g : GenIn) (o : GenOut) : Bool :=
+  (o.fresh == (if g.flagFresh then true else g.fresh.getD false)) &&
+  (o.latest == (if g.flagLatest then true else g.latest.getD false)) &&
+  (o.bs == (if g.flagBs ≠ [] then g.flagBs else g.bs.getD []))
+
+/-! ### substrateNetwork: an int64 setting stored as uint16 -/
+
+/-- `uint16(c.SubstrateNetwork)`: the low 16 bits -/
+def loadSubNet (n : Int) : Nat := (n % 65536).toNat
+
+/-- **P20 (substrate network)**: the loaded network prefix is the number written (`none` = rejected) -/
+def PSubNet (n : Int) (out : Option Nat) : Bool :=
+  match out with
+  | none => true
+  | some v => (v : Int) == n
+
 end Sygma.C20
